@@ -81,7 +81,8 @@ TRUSTED = ['harness/props/c12.py + harness/impl_c12.py (pipeline generator, id()
            'harness/impl_c13.py (threading.Event hand-off scheduler)',
            'CPython object identity (id), copy.deepcopy, ruamel.yaml round-trip loader']
 ASSUMPTIONS = [
-    'one model operation = one effect of a step on objects; a step reads the context once, when it starts; '
+    'one model operation = one effect of a step on objects; a step reads the context once, when it starts (so one '
+    'default / contextmerge step does not address the same object under two aliased keys: not generated); '
     'interleavings at arbitrary bytecode boundaries (GIL switches) are not modelled; threads are switched at probe steps, '
     'at every value of a large contextSetf mapping while it is formatted and at every iteration of a foreach probe',
     'an operation that raises ends its run (no on_failure group in the generated pipelines); the context is then what '
@@ -202,6 +203,21 @@ class Finished:
         return out
 
 
+def check_process_state(fin, when, sb=None):
+    """"A run never alters other runs", the precondition judged on the implementation: no MUTABLE object of a
+    run that is over is still held by the package's process-global state (module-level names, class attributes,
+    functools caches, closures of its functions) - a later run could be handed that very object."""
+    out = []
+    nested = [('a run on a context of its own (a child pipeline of pypyr.steps.pype, or an earlier run)', c)
+              for c in (sb.run_contexts if sb is not None else [])]
+    for label, why in I.held_by_process([(it[0], it[1]) for it in fin.items] + nested):
+        out.append((f'{when}: a mutable object of the context of {label} is kept alive by process-global state of '
+                    f'pypyr, where later runs can get at it: {why}',
+                    {'monitor': 'run-object-held-by-process-global-state'}))
+        break
+    return out
+
+
 def run_kwargs(case, ei):
     """How run number … of entry `ei` is started: through pipelinerunner.run, or on that entry's
     re-used Pipeline object."""
@@ -215,8 +231,20 @@ def run_kwargs(case, ei):
 def gen_config(rng, pipe_names, force_shortcut=False):
     cfg = {'vars': {}, 'shortcuts': {}}
     if rng.random() < 0.6:
+        # every container kind a config value can be: mappings, lists, SETS (yaml `!!set`), tuples (set from code),
+        # nested in each other; through a real config file (ruamel round-trip objects) or assigned from code
+        tuples = False
         for j in range(rng.randint(1, 3)):
-            cfg['vars'][f'cv{j}'] = I.gen_val(rng, 2, rng.choice(['list', 'dict', 'atom', 'list']))
+            kind = rng.choice(['list', 'dict', 'atom', 'list', 'set', 'dict', 'tuple'])
+            v = I.gen_val(rng, 2, kind)
+            tuples = tuples or kind == 'tuple'
+            if isinstance(v, dict) and rng.random() < 0.4:
+                v[f's{j}'] = I.gen_val(rng, 1, 'set')
+            elif isinstance(v, list) and rng.random() < 0.3:
+                v.append(I.gen_val(rng, 1, 'set'))
+            cfg['vars'][f'cv{j}'] = v
+        if not tuples and rng.random() < 0.5:
+            cfg['via'] = 'yaml'
     if force_shortcut or rng.random() < 0.4:
         sc = {'pipeline_name': rng.choice(pipe_names)}
         c = rng.random()
@@ -329,14 +357,39 @@ DIRECTED += [
     {'name': 'shortcut-groups', 'script': ['py_append', 'append_in', 'set'],
      'config': {'shortcuts': {'sc': {'pipeline_name': 'p0', 'groups': ['steps'], 'args': {'lst': [0]}}}}},
 ]
-OBJECT_DIRECTED = (0, 2, 3, 5, 6, 8, 12, 15, 17, 18, 19, 21, 22)     # the directed shapes that are also run on a re-used Pipeline object
+DIRECTED += [
+    # 23: pype with a pipeArg string, the child (pypyr.parser.list) changes its argList in place; the same string again
+    {'name': 'pype-arglist', 'dict_in': {'acc': [0]},
+     'script': [['pype_arglist', {'toks': ['lint', 'src', '--strict']}], 'py_append',
+                ['pype_arglist', {'toks': ['lint', 'src', '--strict']}], ['pype_arglist', {'toks': ['test', 'src dir']}]]},
+    {'name': 'pype-arglist-random', 'dict_in': {}, 'script': ['pype_arglist', 'pype_arglist', 'set', 'pype_arglist']},
+    # 25: config vars of every container kind (a yaml `!!set` at the top and nested), pulled in by configvars and changed
+    # in place in the run's own context
+    {'name': 'configvars-sets-yaml', 'script': ['configvars', ['add', {'K': 'regions'}], 'py_add', 'py_append', 'merge',
+                                                 'py_add', 'configvars', ['add', {'K': 'regions'}]],
+     'dict_in': {'region': 'ap'},
+     'config': {'via': 'yaml', 'vars': {'regions': {'eu', 'us'}, 'owners': ['ops'], 'limits': {'cpu': 2, 'zones': {1, 2}},
+                                         'nested': [{'s': {7}}, [{3}]]}}},
+    {'name': 'configvars-sets-code', 'script': ['configvars', ['add', {'K': 'cs'}], 'py_add', 'py_append', 'py_add'],
+     'dict_in': {},
+     'config': {'vars': {'cs': {1, 'a'}, 'ct': (1, [2], {'k': [3]}), 'cd': {'s': set(), 'l': [{5}]}}}},
+]
+OBJECT_DIRECTED = (0, 2, 3, 5, 6, 8, 12, 15, 17, 18, 19, 21, 22, 23, 25)     # the directed shapes that are also run on a re-used Pipeline object
+
+
+def json_config(cfg):
+    """The configuration of a case, JSON-able: vars (which may hold sets / tuples) in wire form."""
+    out = dict(cfg)
+    if not (isinstance(cfg.get('vars'), dict) and '__wire__' in cfg['vars']):
+        out['vars'] = {'__wire__': I.wire(cfg.get('vars') or {})}
+    return out
 
 
 def case_from(gen, entries, kind, order, probes, via='runner'):
     return {'kind': kind,
             'via': via,
             'pipes': {n: I.render_pipe(p, probes=probes) for n, p in gen.pipes.items()},
-            'config': gen.config,
+            'config': json_config(gen.config),
             'entries': entries,
             'kinds': sorted(set(gen.kinds)),
             'order': order}
@@ -386,7 +439,7 @@ def history_cases(env):
 def thread_cases(env):
     rng = env.rng
     sets = []
-    for j in (0, 1, 2, 3, 5, 8, 12, 14, 16, 18, 19, 21, 21, 22):
+    for j in (0, 1, 2, 3, 5, 8, 12, 14, 16, 18, 19, 21, 21, 22, 23, 25):
         d = DIRECTED[j]
         gen, entries = make_entries(rng, 1, directed=d)
         # the hand-off shape twice: two threads, then three
@@ -454,6 +507,7 @@ def check_alias(env, res, sb, case, tag='replay'):
         found += check_shared_unchanged(sb, names, baseline, cfg0, f'after run {k + 1}')
         found += fin.check(f'after run {k + 1}')
         fin.add(f'run {k + 1}', sb.last_live)
+        found += check_process_state(fin, f'after run {k + 1}', sb)
     # what the re-used Pipeline objects hold by reference (`shortcut['groups']`: the configuration's own list): a
     # slot of a Pipeline object is no operation's target (PipeObj.held, `held_reference_reads_same`); that the
     # configuration did not change is judged by the snapshots above
@@ -598,6 +652,7 @@ def check_history(env, res, sb, case, tag='replay'):
         found += check_shared_unchanged(sb, names, baseline, cfg0, f'after run {k + 1} (entry {ei})')
         found += fin.check(f'after run {k + 1} (entry {ei})')
         fin.add(f'run {k + 1} (entry {ei})', sb.last_live)
+        found += check_process_state(fin, f'after run {k + 1} (entry {ei})', sb)
         if ei in first:
             ref = obs[first[ei]]
             for what in ('trace', 'outcome', 'final'):
@@ -717,6 +772,9 @@ def check_threads(env, res, sb, case, tag='replay'):
                 break
     found += check_shared_unchanged(sb, names, baseline, cfg0, 'after the threaded runs')
     found += fin.check('after the threaded runs')
+    for t, ctx in sorted(lives.items()):
+        fin.add(f'thread {t}', ctx)
+    found += check_process_state(fin, 'after the threaded runs', sb)
     res.case(case)
     res.count('threads:' + tag)
     res.count('threads:via-' + via)
